@@ -122,6 +122,7 @@ void HttpServer::serve(Socket client)
 				if (response.hasHeader("Content-Range") && response.header("Content-Range").contains('*'))
 				{
 					response.setCode(416);
+					response.put(""); // no longer a file body: write() would call putFile() again and never send the response
 					response.write();
 				}
 			}
